@@ -64,6 +64,11 @@ pub struct Scn {
     pub ent: u64,
     pub msg_seed: u64,
     pub sessions: Vec<Kind>,
+    /// per session: how many times the input ciphertext is mod-switched down before the protocol (0 = fresh)
+    pub preps: Vec<usize>,
+    /// per session: the parties that call finish() (empty = everybody); the others contribute their
+    /// messages and drop the protocol object, as the crate's own tests do
+    pub finishers: Vec<Vec<usize>>,
     /// faults are injected into exactly this session (and the run stops after it)
     pub fault: Option<(usize, FaultPlan)>,
     /// delivery order: seeded, or (for replay) forced per session
@@ -81,6 +86,8 @@ impl Scn {
             "entropy_seed": self.ent,
             "message_seed": self.msg_seed,
             "sessions": self.sessions.iter().map(|k| k.name()).collect::<Vec<_>>(),
+            "mod_switches_before_session": self.preps,
+            "parties_calling_finish": self.finishers,
             "fault": self.fault.as_ref().map(|(i, p)| json!({"session": i, "plan": p.to_json()})),
             "order_seed": self.order_seed,
             "event_orders": orders.map(|o| o.iter().map(|s| s.iter().map(|(k, r, f, t)| json!([k, r, f, t])).collect::<Vec<_>>()).collect::<Vec<_>>()),
@@ -110,6 +117,11 @@ impl Scn {
             ent: v["entropy_seed"].as_u64()?,
             msg_seed: v["message_seed"].as_u64()?,
             sessions: v["sessions"].as_array()?.iter().map(|x| x.as_str().and_then(Kind::from_name)).collect::<Option<Vec<_>>>()?,
+            preps: v["mod_switches_before_session"].as_array().map(|a| a.iter().map(|x| x.as_u64().unwrap_or(0) as usize).collect()).unwrap_or_default(),
+            finishers: v["parties_calling_finish"]
+                .as_array()
+                .map(|a| a.iter().map(|l| l.as_array().map(|l| l.iter().filter_map(|x| x.as_u64().map(|y| y as usize)).collect()).unwrap_or_default()).collect())
+                .unwrap_or_default(),
             fault,
             order_seed: v["order_seed"].as_u64()?,
             forced,
@@ -493,11 +505,23 @@ fn run_inner(scn: &Scn, res: &mut ScnResult) -> Result<(), String> {
             let Some(pk) = &pk else { return Err("session list needs a public key first".into()) };
             let m = env.fresh_msg(&mut mrng);
             let enc = Encryptor::new(ctx0.clone()).set_public_key(pk.clone());
-            cipher = Some(enc.encrypt_new(&env.encode(&m)));
+            let mut c = enc.encrypt_new(&env.encode(&m));
+            // optionally work below the first level (BGV then carries a correction factor != 1)
+            for _ in 0..scn.preps.get(idx).copied().unwrap_or(0) {
+                let has_next = ctx0.get_context_data(c.parms_id()).and_then(|cd| cd.next_context_data()).is_some();
+                if !has_next {
+                    break;
+                }
+                c = env.eval.mod_switch_to_next_new(&c);
+                res.count("probe.session_on_mod_switched_ciphertext", 1);
+            }
+            cipher = Some(c);
             msg = Some(m);
         }
 
         let mut session_orders: Vec<EvId> = Vec::new();
+        let fin = scn.finishers.get(idx).cloned().unwrap_or_default();
+        let finishes = |i: usize| fin.is_empty() || fin.contains(&i);
         match kind {
             Kind::PublicKey => {
                 let protos: Vec<_> = parties.iter_mut().map(|p| Some(p.generate_public_key())).collect();
@@ -507,6 +531,10 @@ fn run_inner(scn: &Scn, res: &mut ScnResult) -> Result<(), String> {
                 let mut keys = Vec::new();
                 for i in 0..n {
                     let p = io.protos[i].take().unwrap();
+                    if !finishes(i) {
+                        res.count("probe.party_contributed_without_finishing", 1);
+                        continue;
+                    }
                     let r = catch_res(|| p.finish());
                     if let Some(k) = judge_finish(res, kind, scheme, i, &out, r) {
                         keys.push((i, k));
@@ -552,6 +580,10 @@ fn run_inner(scn: &Scn, res: &mut ScnResult) -> Result<(), String> {
                     let p = io.protos[i].take().unwrap();
                     if !out.at_last_round[i] {
                         // stuck before round 2: drive() already asked it to go on and recorded the answer
+                        continue;
+                    }
+                    if !finishes(i) {
+                        res.count("probe.party_contributed_without_finishing", 1);
                         continue;
                     }
                     let r = catch_res(|| p.finish());
@@ -833,7 +865,7 @@ fn shares_to_cipher(
 fn gen_spec(rng: &mut Prng, need_relin: bool) -> Option<ParamSpec> {
     let scheme = *rng.pick(&[BFV, BFV, BGV, CKKS]);
     let n = *rng.pick(&[8usize, 16, 32, 64]);
-    let primes = rng.range(if need_relin { 3 } else { 2 }, 4);
+    let primes = rng.range(if need_relin { 3 } else { 2 }, 4).max(if rng.coin() { 3 } else { 2 });
     let factor = 2 * n as u64;
     let mut q = Vec::new();
     for i in 0..primes {
@@ -843,7 +875,7 @@ fn gen_spec(rng: &mut Prng, need_relin: bool) -> Option<ParamSpec> {
     }
     let tbits = rng.range(13, 20);
     let t = if scheme == CKKS { 0 } else { gen::find_prime(rng, factor, tbits, &q)? };
-    Some(ParamSpec { scheme, n, q, t, expand_chain: true })
+    Some(ParamSpec { scheme, n, q, t, expand_chain: true, special_enc: false })
 }
 
 fn gen_scn(rng: &mut Prng, run_seed: u64, max_n: usize) -> Option<Scn> {
@@ -865,9 +897,29 @@ fn gen_scn(rng: &mut Prng, run_seed: u64, max_n: usize) -> Option<Scn> {
     for _ in 0..rng.range(1, 3) {
         sessions.push(*rng.pick(&pool));
     }
+    let preps: Vec<usize> = sessions.iter().map(|_| if rng.chance(1, 3) { rng.range(1, 2) } else { 0 }).collect();
+    let finishers: Vec<Vec<usize>> = sessions
+        .iter()
+        .map(|k| {
+            if matches!(k, Kind::PublicKey | Kind::RelinKeys) && rng.chance(1, 3) {
+                // party 0 always finishes (its output is the one used afterwards)
+                let mut v = vec![0usize];
+                for p in 1..n {
+                    if rng.chance(1, 3) {
+                        v.push(p);
+                    }
+                }
+                v
+            } else {
+                Vec::new()
+            }
+        })
+        .collect();
     Some(Scn {
         spec,
         n,
+        preps,
+        finishers,
         own_ctx: rng.coin(),
         tape: prng::mix(run_seed, 0x7A9E, 0),
         ent: prng::mix(run_seed, 0xE27, 0),
@@ -1087,6 +1139,9 @@ fn minimise(v: &Violation) -> Violation {
         if scn.n > 2 && scn.fault.is_none() {
             let mut c = scn.clone();
             c.n -= 1;
+            for f in c.finishers.iter_mut() {
+                f.retain(|&p| p < c.n);
+            }
             if let Some((f, o)) = reproduces(&c, &v.key) {
                 scn = c;
                 best_f = f;
@@ -1099,6 +1154,12 @@ fn minimise(v: &Violation) -> Violation {
         for i in (1..scn.sessions.len()).rev() {
             let mut c = scn.clone();
             c.sessions.remove(i);
+            if i < c.preps.len() {
+                c.preps.remove(i);
+            }
+            if i < c.finishers.len() {
+                c.finishers.remove(i);
+            }
             if let Some((fi, p)) = &scn.fault {
                 if *fi == i {
                     continue;
